@@ -61,8 +61,18 @@ def catalogue(cfg):
     transient = [("sim-api", {"kind": "raise_before"}), ("sim-api", {"kind": "status_infeasible", "assign": "full"}),
                  ("cbc-wrapper", {"kind": "exit_nonzero"}), ("cbc-wrapper", {"kind": "no_sol_file"}),
                  ("highs-wrapper", {"kind": "exit_minus1"}), ("highs-wrapper", {"kind": "timelimit_no_solution"})]
+    # late failures: the back-end works when first asked and fails when asked again within one request (code that
+    # solves a request in several parts must still answer first-come-first-served - or, having retried, the optimum)
+    late = [("sim-api", {"kind": "raise_before"}), ("sim-api", {"kind": "status_infeasible", "assign": "none"}),
+            ("sim-api", {"kind": "status_notsolved", "assign": "partial"}),
+            ("cbc-wrapper", {"kind": "exit_nonzero"}), ("cbc-wrapper", {"kind": "infeasible"}),
+            ("highs-wrapper", {"kind": "exit_minus1"}), ("highs-wrapper", {"kind": "timelimit_no_solution"})]
     steps = []
     for via in ("property", "argument"):
+        for backend, fault in late:
+            f = dict(fault, tie=cfg.randrange(64), partial=cfg.randrange(1 << 16), exc=cfg.choice(["message", "noargs", "subclass"]))
+            steps.append({"backend": backend, "via": via, "fault": {"kind": "ok", "tie": cfg.randrange(64)}, "fault_then": f,
+                          "default": "none"})
         for backend, fault in out:
             f = dict(fault)
             f["tie"] = cfg.randrange(64)
@@ -100,6 +110,8 @@ def gen_run(seed, tier, i):
             st = structures.gen_large(s_struct, 30, 80)
         elif i % 4 == 3:
             st = structures.gen_many(s_struct, 10, 14)
+        elif i % 4 == 1:
+            st = structures.gen_multi_group_rising(s_struct)
         elif i % 8 == 2:
             st = structures.gen_broom(s_struct)
         else:
@@ -133,6 +145,8 @@ def gen_run(seed, tier, i):
             return structures.gen_many(s_struct, 10, 14)
         if x < 0.20:
             return structures.gen_broom(s_struct)
+        if x < 0.30:
+            return structures.gen_multi_group_rising(s_struct)
         return structures.gen_structure(s_struct, max_stems=7, knotted_bias=0.75)
 
     pool = [fresh_structure() for _ in range(3)]
